@@ -33,6 +33,10 @@ class Rej(Exception):
     """raised by the harness's validator / normalizer when told to reject"""
 
 
+class Boom(Exception):
+    pass
+
+
 class PlanObj:
     """a plan that is not a generator: iterable class instance, optionally without __name__"""
 
@@ -144,6 +148,13 @@ def execute(h, universe):
         del RE.md["versions"]
     docs = []
     RE.subscribe(lambda name, doc: docs.append(doc), "start")
+
+    def raiser(name, doc):
+        # nmode "idraise": identity normalizer, and a LATER subscriber fails on the RunStart (the RunEngine does not ignore
+        # callback exceptions by default): the run has been opened -- an earlier subscriber holds its RunStart
+        if flags["n"] == "idraise":
+            raise Boom("subscriber")
+    RE.subscribe(raiser, "start")
     obs = [dict(init, md=enc_map(RE.md, universe))]
     i, n = 1, len(h)
     while i < n:
@@ -178,11 +189,13 @@ def execute(h, universe):
                     yield Msg("open_run", **dec_map(b["o"], versions))
                 except Rej:
                     exc = "rej"
+                except Boom:
+                    exc = "boom"
                 except Exception as ex:       # noqa
                     exc = "other:" + type(ex).__name__
                 new = docs[mark:]
                 start = dict(zero)
-                if exc is None and len(new) == 1:
+                if exc == ("boom" if b["nmode"] == "idraise" else None) and len(new) == 1:
                     kind = "start"
                     start = enc_map(new[0], universe, drop=("uid", "time"))
                     if not ("uid" in new[0] and "time" in new[0]):
@@ -193,7 +206,7 @@ def execute(h, universe):
                     kind = f"anomaly:{exc}:{len(new)}-start-docs"
                 flags["v"], flags["n"] = "accept", "identity"
                 obs.append(dict(b, kind=kind, start=start, md=enc_map(RE.md, universe), kw=cs["kw"], ident=cs["ident"]))
-                if exc is None:
+                if exc in (None, "boom"):
                     yield Msg("close_run")
 
         g = plan()
@@ -434,7 +447,7 @@ def random_history(rng, quick):
         h.append(dict(e0, op="call_start", kw=kw, ident=ident))
         for _ in range(rng.randint(0, 4 if quick else 6)):
             r = rng.random()
-            vm, nm = ("accept", "identity") if r < 0.45 else ("accept", "rename") if r < 0.65 else ("reject", "identity") if r < 0.85 else ("accept", "reject")
+            vm, nm = ("accept", "idraise") if r < 0.1 else ("accept", "identity") if r < 0.45 else ("accept", "rename") if r < 0.65 else ("reject", "identity") if r < 0.85 else ("accept", "reject")
             h.append(dict(e0, op="open", o=rmap(0.3), vmode=vm, nmode=nm, kw=kw, ident=ident))
         h.append(dict(e0, op="call_end"))
     return h
